@@ -2,8 +2,8 @@ SPECIFICATION Spec
 CONSTANTS
   MaxScales = 3
   MaxLen = 4
-  KeepCallersList = FALSE
-  ShareListsOnCopy = TRUE
+  KeepCallersList = TRUE
+  ShareListsOnCopy = FALSE
   Doms = {"dA", "dB"}
   Rngs = {"rB"}
   NiceMs = {"10"}
